@@ -472,6 +472,16 @@ def check_classifier(ctx):
                 ok = ok and "hasattr(%s, '%s')" % (obj, c) in lits and "callable(%s.%s)" % (obj, c) in lits
         ctx.check("C03-a", ok, pf, "%s does not require callable %s: an object without them would be driven as that kind" % (pred, "/".join(caps)),
                   detail="%s <=> callable %s" % (pred, ", ".join(caps)), construct="pred:%s" % pred)
+    # is_source, used by Split.__call__ / Zip for the common type, must recognise what the classifier calls a source
+    isf = ctx.tree.func("lena.core.check_sequence_type", "is_source")
+    ip = A.func_params(isf)[0]
+    rets = [r for r in A.walk_local(isf) if isinstance(r, ast.Return)]
+    v = fn_deref(isf, rets[0].value) if len(rets) == 1 else None
+    ok = isinstance(v, ast.Call) and A.call_name(v) == "isinstance" and len(v.args) == 2 and A.src(v.args[0]) == ip \
+        and (res.canon(v.args[1]) == "lena.core.source.Source" or A.src(v.args[1]).endswith("source.Source"))
+    ctx.check("C03-a", ok, isf, "is_source is `%s`, not isinstance(seq, Source): the classifier accepts every instance of Source (also of "
+              "a subclass) as a source branch, so a Split of such sources would be classified 'source' and yet refuse to be called"
+              % (A.short(v, 50) if v is not None else "?"), detail="is_source agrees with the classifier's isinstance test", construct="is-source")
     return KINDS
 
 
@@ -1106,6 +1116,7 @@ def check(ctx):
 SP = "lena/core/split.py"
 ZP = "lena/flow/zip.py"
 VARIANTS = [
+    M("is-source-exact-type", "lena/core/check_sequence_type.py", "    return isinstance(seq, source.Source)", "    return type(seq) is source.Source", ["C03-a"]),
     M("classifier-sequence-test-removed", "lena/core/split.py", "    elif isinstance(seq, sequence.Sequence):\n        seq_type = \"sequence\"\n", "", ["C03-a"]),
     M("final-missing-sequence", SP, "            elif seq_type == \"sequence\":\n                if flow_was_empty:\n                    for val in seq.run([]):\n                        yield val\n",
       "", ["C03-a", "C03-e"]),
